@@ -156,6 +156,8 @@ def strat_alloc(draw, tier, ends_only=False):
     return {"machine": m, "vertices": vertices, "reservations": reservations,
             "align": align, "vkind": draw(st.sampled_from(pr.VERTEX_KINDS)),
             "ends_only": ends_only,
+            # constraints given as instances of the caller's own subclasses
+            "subcls": draw(st.integers(0, 3)) == 0,
             "scale": draw(st.sampled_from([1, 1, 1, 1, 1, 2 ** 54 + 1,
                                            10 ** 18 + 9]))}
 
@@ -218,6 +220,10 @@ def check_alloc(case):
         vr[vobj[v["name"]]] = pr.res_dict(v["needs"])
         placements[vobj[v["name"]]] = tuple(v["chip"])
     constraints = []
+    sub = case.get("subcls", False)
+    ReserveResourceConstraint = pr.constraint_class(ReserveResourceConstraint,
+                                                    sub)
+    AlignResourceConstraint = pr.constraint_class(AlignResourceConstraint, sub)
     for r in case["reservations"]:
         constraints.append(ReserveResourceConstraint(
             pr.resource(r["res"]), slice(r["start"], r["stop"]),
